@@ -146,7 +146,7 @@ func propC13(c *Check) {
 			if call, ok := s.Args[0].(*ssa.Call); ok && len(call.Call.Args) > 0 {
 				pw = r.E(call.Call.Args[0])
 			}
-			c.RequireFact(f, "R2", fmt.Sprintf("positive-power PowerRanking.Set#%d", i), `^\(0 < `+regexp.QuoteMeta(pw)+`\)$|^\(1 <= `+regexp.QuoteMeta(pw)+`\)$|^\(0 != `+regexp.QuoteMeta(pw)+`\)$`, instrSet([]ssa.Instruction{s.Call}), "ranking insert")
+			c.RequireFact(f, "R2", fmt.Sprintf("positive-power PowerRanking.Set#%d", i), patPositive(pw), instrSet([]ssa.Instruction{s.Call}), "ranking insert")
 		}
 		// power changes of ranked records need a prior Remove of the loaded power
 		for _, a := range vf.ts.Allocs {
@@ -761,9 +761,9 @@ func propC15(c *Check) {
 			}
 		}
 		rm := p.FindCalls(dm, `^UnlockQueue\.Remove\(`)
-		if len(rm) == 1 && regexp.MustCompile(`^UnlockQueue\.Remove\(new\(\[\]time\.Time\)#0\[\(1 \+ φ\{-1\|@\}\)\]\)$`).MatchString(p.CallStr(rm[0])) {
+		if len(rm) == 1 && regexp.MustCompile(`^UnlockQueue\.Remove\(new\(\[\]time\.Time\)#0\[φ\{\(1 \+ @\)\|0\}\]\)$`).MatchString(p.CallStr(rm[0])) {
 			c.Held("R2", "every-visited-key-removed @ "+FuncKey(dm), p.InstrPos(rm[0]), "")
-			c.RequireFact(dm, "R2", "all-keys-removed", `^\(len\(new\(\[\]time\.Time\)#0\) <= \(1 \+ φ\{-1\|@\}\)\)$|^\(0 == len\(new\(\[\]time\.Time\)#0\)\)$`, nil, "")
+			c.RequireFact(dm, "R2", "all-keys-removed", `^\(len\(new\(\[\]time\.Time\)#0\) <= φ\{\(1 \+ @\)\|0\}\)$|^\(0 == len\(new\(\[\]time\.Time\)#0\)\)$`, nil, "")
 		} else {
 			c.Violated("R2", "every-visited-key-removed @ "+FuncKey(dm), p.Pos(dm.Pos()), "visited keys are not all removed reason=not-established")
 		}
